@@ -10,10 +10,10 @@ cd $WT
 export RUSTUP_TOOLCHAIN=1.88.0 CARGO_TARGET_DIR=/repo/target RUST_BACKTRACE=0
 echo "#[cfg(test)] #[path = \"$SEED/demo.rs\"] mod seed_demo;" >> $MODFILE
 echo "== demo WITHOUT the change"
-cargo test --offline --lib seed_demo 2>&1 | grep -E "^test result|^error" | head -3
+timeout 300 cargo test --offline --lib seed_demo 2>&1 | grep -E "^test result|^error|^test " | head -6
 git apply $SEED/patch.diff || { echo "PATCH DOES NOT APPLY"; cd /; git -C /repo worktree remove --force $WT; exit 2; }
 echo "== demo WITH the change"
-cargo test --offline --lib seed_demo 2>&1 | grep -E "^test result|^error|panicked" | head -4
+timeout 300 cargo test --offline --lib seed_demo 2>&1 | grep -E "^test result|^error|panicked" | head -4
 echo "== existing lib tests WITH the change (demo excluded)"
 cargo test --offline --lib -- --skip seed_demo 2>&1 | grep -E "^test result|^error" | head -3
 cd /
